@@ -1273,6 +1273,13 @@ class CanUnprotect(BaseSecurityContext):
             # FIXME is this necessary?
             raise ProtectionInvalid("Sender ID context does not match")
 
+        if not is_response and COSE_KID not in unprotected:
+            # RFC 8613 Section 5: the 'kid' parameter SHALL be present in
+            # requests. A request that arrives without one is not another
+            # rendition of the message that was sent (and could not have been
+            # dispatched to this context by its key ID in the first place).
+            raise ProtectionInvalid("No key ID provided in request")
+
         if unprotected.pop(COSE_KID, self.recipient_id) != self.recipient_id:
             # for most cases, this is caught by the session ID dispatch, but in
             # responses (where explicit sender IDs are atypical), this is a
